@@ -225,6 +225,9 @@ def check(prog, ctx):
                    'elimination divides by the natural diagonal %s[%s][%s]: %s' % (w, v, v, '; '.join(why)),
                    witness={'reproducer': '[[0,1],[1,0]] -> exit "Diagonal element is zero"; [[1e-20,1],[1,1]] -> X[0][0]=0 instead of -1'} if not ok else None,
                    line=n.get('l'))
+    # ---- C05.d the row operation of the elimination acts on the WHOLE row of the work array: with row exchanges the pivot row
+    # is in general non-zero in every column of both halves
+    ctx.sub('row_update_range', row_update_range, prog, ctx, inv, elim)
     # ---- C05.c gates
     invt = prog.fn(M + 'Invertible')
     f = G.bool_summary(prog, invt)
@@ -302,6 +305,45 @@ def laplace(prog, ctx, det):
         cs = []
     oks = ('Delete_Row', sub.params[0]['name']) in cs and ('Delete_Column', sub.params[1]['name']) in cs
     ctx.decide(R, 'Sub_Matrix', sub, oks, 'Sub_Matrix(r,c) deletes row r and column c', 'Sub_Matrix calls %s' % cs)
+
+
+def row_update_range(prog, ctx, inv, elim):
+    n, outer, w, v, stack = elim[0]
+    # the loop that updates W[j][k] -= ratio * W[i][k]: a loop nested in the sweep that stores into W with the pivot-row read W[v][.]
+    upd = None
+    for lp in walk_stmts(outer['body']):
+        if lp['k'] != 'For' or not loop_var(lp):
+            continue
+        kv = loop_var(lp)['name']
+        body_stmts = [x_ for x_ in walk_stmts(lp['body'])]
+        if any(x_['k'] in ('For', 'While') for x_ in body_stmts):
+            continue
+        for x_ in body_stmts:
+            for e_ in stmt_exprs(x_):
+                e_ = strip(e_)
+                if e_.get('k') == 'Bin' and e_['op'] in ('=', '-=') and elem_index(e_['lhs']) and elem_index(e_['lhs'])[0] == w and elem_index(e_['lhs'])[2] == kv \
+                        and any(elem_index(y_) and elem_index(y_)[0] == w and elem_index(y_)[1] == v and elem_index(y_)[2] == kv for y_ in walk_expr(e_['rhs'])):
+                    upd = lp
+    if upd is None:
+        ctx.undecided('C05.d', 'Inverse:row-update-range', inv, 'row update W[j][k] -= ratio*W[%s][k] not found' % v)
+        return
+    sx = Symx(prog, inv)
+    sts = sx.states_at(inv, upd)
+    if not sts:
+        raise Undecided('no path reaches the row update')
+    cl = sx.counted(upd, sts[0])
+    if cl is None:
+        ctx.undecided('C05.d', 'Inverse:row-update-range', inv, 'row update loop is not a counted loop', line=upd['l'])
+        return
+    var, lo, hi = cl
+    rows_ = Symbol('this.rows', integer=True)
+    warr = [v_ for v_ in sts[0].env.values() if isinstance(v_, Arr) and getattr(v_, 'dims', None) and str(v_.name).split('@')[0] == w]
+    full = [2 * rows_] + ([warr[0].dims[1]] if warr else [])
+    okr = lo == 0 and any(sp.simplify(hi - f_) == 0 for f_ in full) or (lo == 0 and str(hi).endswith('.columns'))
+    ctx.decide('C05.d', 'Inverse:row-update-range', inv, bool(okr), 'the row operation runs over all columns [0, 2N) of the work array',
+               'the row operation only covers columns [%s, %s) of the work array: after a row exchange the pivot row is non-zero outside that band '
+               '(the identity half carries a 1 in the column of the ORIGINAL row), so the result is not the inverse' % (lo, hi),
+               witness={'reproducer': 'Inverse({{1,2},{3,4}}): X*M differs from the identity by O(1)'} if not okr else None, line=upd['l'])
 
 
 def extraction(prog, ctx, inv, elim, scale):
